@@ -122,8 +122,15 @@ Definition enc09 (obs : list step_obs) : list tok := flat_map enc_step obs.
 (* keeps replayed / shrunk cases inside what the harness can allocate (the generator never
    exceeds it); not a restriction of the theorems *)
 Definition page_cap : N := 65536.
+Definition slot_of (o : op09) : N :=
+  match o with
+  | OSetRange s _ _ | OResetRange s _ _ | OSetBit s _ | OResetBit s _ | OEnlarge s _ | OClone s
+  | OHarvest s | OReset s | OMark s _ _ _ _ | ODirtyAt s _ _ _ | OIsAddrSet s _ | OIsBitSet s _ => s
+  end.
+(* every token-controlled number that reaches N.to_nat (slot index, page counts) is bounded here,
+   BEFORE the model or the checker run: shrinking / neighbourhood search feed values like 2^64-1 *)
 Definition sane_op (ps : N) (o : op09) : bool :=
-  match o with OEnlarge _ add => add / ps <? page_cap | _ => true end.
+  (slot_of o <? 64) && match o with OEnlarge _ add => add / ps <? page_cap | _ => true end.
 Definition sane_case (c : case09) : bool :=
   (c_bytes c / c_ps c <? page_cap) && forallb (sane_op (c_ps c)) (c_ops c) && (length (c_ops c) <? 200)%nat.
 
